@@ -11,6 +11,7 @@ import (
 	"fmt"
 	"os"
 	"testing"
+	"time"
 
 	"github.com/rogpeppe/go-internal/cache"
 	"pgregory.net/rapid"
@@ -37,6 +38,7 @@ type TaskPlan struct {
 type Plan struct {
 	Sizes     []int       `json:"sizes"`
 	Prefix    []Op        `json:"prefix,omitempty"` // executed one after the other before the concurrent phase
+	AgeHours  int         `json:"age_hours,omitempty"` // simulated time between the prefix and the concurrent phase (entries older than the mtime-refresh granularity are refreshed by lookups)
 	Tasks     []TaskPlan  `json:"tasks"`
 	Torn      bool        `json:"torn"`
 	ReadChunk int         `json:"read_chunk"`
@@ -105,6 +107,7 @@ func genPlan(t *rapid.T, tier string) any {
 		p.Torn = rapid.Bool().Draw(t, "torn")
 		p.ReadChunk = rapid.SampledFrom([]int{64, 512, 4096, 65536}).Draw(t, "readchunk")
 		p.Chunk = rapid.SampledFrom([]int{100, 4096, 1 << 20}).Draw(t, "chunk")
+		p.AgeHours = rapid.SampledFrom([]int{0, 0, 2, 26}).Draw(t, "agehours")
 		p.Sched = gen.Sched(t, 600)
 		return p
 	}
@@ -125,6 +128,7 @@ func genPlan(t *rapid.T, tier string) any {
 		p.Torn = rapid.Bool().Draw(t, "torn")
 		p.ReadChunk = rapid.SampledFrom([]int{64, 512, 4096, 65536}).Draw(t, "readchunk")
 		p.Chunk = rapid.SampledFrom([]int{100, 4096, 1 << 20}).Draw(t, "chunk")
+		p.AgeHours = rapid.SampledFrom([]int{0, 0, 2, 26}).Draw(t, "agehours")
 		p.Sched = gen.Sched(t, 200)
 		return p
 	}
@@ -184,6 +188,7 @@ func genPlan(t *rapid.T, tier string) any {
 	p.Torn = rapid.IntRange(0, 3).Draw(t, "torn") != 0
 	p.ReadChunk = rapid.SampledFrom([]int{64, 512, 4096, 65536}).Draw(t, "readchunk")
 	p.Chunk = rapid.SampledFrom([]int{100, 4096, 1 << 20}).Draw(t, "chunk")
+	p.AgeHours = rapid.SampledFrom([]int{0, 0, 2, 26}).Draw(t, "agehours")
 	p.Sched = gen.Sched(t, 600)
 	return p
 }
@@ -232,7 +237,7 @@ func run(t *testing.T, plan any, keep bool) *simcheck.Outcome {
 	for k := range prefix {
 		prefix[k].Content = canon[prefix[k].Content]
 	}
-	p = &Plan{Sizes: p.Sizes, Prefix: prefix, Tasks: tasks, Torn: p.Torn, ReadChunk: p.ReadChunk, Chunk: p.Chunk, Sched: p.Sched}
+	p = &Plan{Sizes: p.Sizes, Prefix: prefix, AgeHours: p.AgeHours, Tasks: tasks, Torn: p.Torn, ReadChunk: p.ReadChunk, Chunk: p.Chunk, Sched: p.Sched}
 	// which contents does the plan ever store under each id?
 	planned := make([]map[int]bool, nIDs)
 	for i := range planned {
@@ -303,7 +308,7 @@ func run(t *testing.T, plan any, keep bool) *simcheck.Outcome {
 		id      int
 	}
 	var held []heldBytes
-	lookups, hits, missesDuring, dropped, trims := 0, 0, 0, 0, 0
+	lookups, hits, missesDuring, dropped, trims, aged := 0, 0, 0, 0, 0, 0
 	type putRec struct{ id, content, start, end int }
 	type lookRec struct {
 		id, start, end, content int // content -1: miss
@@ -382,6 +387,10 @@ func run(t *testing.T, plan any, keep bool) *simcheck.Outcome {
 			}
 			completed[op.ID][op.Content] = true
 			puts = append(puts, &putRec{op.ID, op.Content, st, s.Steps()})
+		}
+		if p.AgeHours > 0 {
+			simtime.Advance(time.Duration(p.AgeHours) * time.Hour)
+			aged++
 		}
 		remaining := len(p.Tasks)
 		for ti, tp := range p.Tasks {
@@ -555,6 +564,7 @@ func run(t *testing.T, plan any, keep bool) *simcheck.Outcome {
 	out.Nontrivial = rep.Switches > len(p.Tasks)+1
 	out.Count("shape_output_trimmed_away", int64(dropped))
 	out.Count("concurrent_trims", int64(trims))
+	out.Count("shape_prefix_entries_aged", int64(aged))
 	out.Count("lookups", int64(lookups))
 	out.Count("lookup_hits", int64(hits))
 	out.Count("lookup_misses", int64(missesDuring))
